@@ -467,7 +467,8 @@ def _random_model(seed, fnptr=False):
                 pool = SCALARS + STRUCT_ARGS + PTR_ARGS + [("OpaqueCallback_Pair", "cb")] + ([FNPTR_ARG] * 4 if fnptr else [])
                 ty = rng.choice(pool)[0]
                 if ty.startswith("void (*)"):
-                    args.append(("void (*a%d)(int32_t, int32_t)" % ai, ""))   # function-pointer argument: name inside the declarator
+                    # function-pointer argument: name inside the declarator; two, one or no parameters of its own
+                    args.append(("void (*a%d)(%s)" % (ai, rng.choice(["int32_t, int32_t", "int32_t, int32_t", "int32_t", "void"])), ""))
                 else:
                     args.append((ty, "a%d" % ai))
             ret = rng.choice(["void", "uint64_t", "uint8_t", "int32_t", "struct Pair", "bool", "const uint8_t *", "uintptr_t"])
